@@ -243,6 +243,14 @@ pub fn run(ctx: &mut Ctx) {
     let pool_str = vec![Value::Nil, s("a"), s("b"), s("B"), s("ab")];
     let pool_mixed = vec![Value::Nil, i(1), i(2), s("a"), s("B"), b(true), f(1.5)];
     for_all_arrays(&pool_int, 5, |a| g.scalars_battery("exh-int", a, true));
+    // integers that are distinct as i64 but round to the same f64
+    let pool_big = vec![i(9007199254740992), i(9007199254740993), i(9007199254740994), i(-9007199254740993), i(-9007199254740992), i(i64::MAX), i(i64::MAX - 1), i(1234567890123456789), i(1234567890123456788)];
+    for_all_arrays(&pool_big, 3, |a| g.scalars_battery("exh-bigint", a, true));
+    {
+        // and as a sort key of objects
+        let objs: Vec<Value> = [9007199254740993i64, 9007199254740992, 9007199254740994].iter().map(|k| obj(&[("p", i(*k)), ("q", i(*k % 7))])).collect();
+        for_all_arrays(&objs, 3, |a| g.objects_battery("exh-bigint-key", a));
+    }
     for_all_arrays(&pool_str, if thorough { 5 } else { 4 }, |a| g.scalars_battery("exh-str", a, true));
     for_all_arrays(&pool_mixed, if thorough { 5 } else { 4 }, |a| g.scalars_battery("exh-mixed", a, false));
 
